@@ -7,6 +7,7 @@ package main
 //
 //   cfg-defaults env=<hexT>:<hexM> logger=0|1 path=value …   real: "<dump1> | <dump2>" / "panic" / "<dump1> | panic"
 //   cfg-meta|cfg-member|cfg-elector|cfg-file path=value …   real: "key=value …" / "s:<hex>" / "panic"
+//   cfg-start path=value …                                   real: "<dump> ;meta <kv> ;member <kv> ;elector <kv>" / "panic" (dcp.NewDcp on a dead port)
 //   cfg-size h<hex> <class>                                  real: "<int>" / "panic"
 //   cfg-envsubst env=<hexname>:<hexval>,… <line> <line> …   real: "<hex> <hex> …" (values of the q/p lines, file order) / "err"
 //
@@ -17,6 +18,7 @@ import (
 	"bufio"
 	"encoding/hex"
 	"fmt"
+	"io"
 	"os"
 	"reflect"
 	"sort"
@@ -28,7 +30,9 @@ import (
 	"github.com/Trendyol/go-dcp/config"
 	"github.com/Trendyol/go-dcp/helpers"
 	"github.com/Trendyol/go-dcp/logger"
+	"github.com/Trendyol/go-dcp/models"
 	"github.com/couchbase/gocbcore/v10"
+	"github.com/sirupsen/logrus"
 )
 
 func init() { props["c17"] = runC17 }
@@ -282,6 +286,8 @@ func cfgExec(op string) string {
 		return cfgExecSize(unhx(strings.TrimPrefix(w[1], "h")))
 	case "cfg-envsubst":
 		return cfgExecEnvSubst(w[1:])
+	case "cfg-start":
+		return cfgExecStart(w[1:])
 	}
 	panic("unknown op " + op)
 }
@@ -336,6 +342,43 @@ func cfgExecDefaults(w []string) (res string) {
 	// second application on the same struct: in the real process a logger exists by now
 	d2 := apply()
 	return d1 + " | " + d2
+}
+
+// cfg-start: the public constructor dcp.NewDcp on a configuration struct whose hosts point at a dead port: newDcp runs
+// ApplyDefaults, prints the configuration and fails in client.Connect. What the caller's struct (and the maps it shares with
+// every copy) holds afterwards must be exactly what ApplyDefaults alone leaves - start-up never alters an explicitly set value.
+// Observation = dump of the struct + the four derived views.
+func cfgExecStart(w []string) (res string) {
+	defer func() {
+		if r := recover(); r != nil {
+			res = "panic"
+			if os.Getenv("VERIF_DEBUG") != "" {
+				res = fmt.Sprintf("panic %v", r)
+			}
+		}
+	}()
+	c := cfgBuild(w)
+	saved := logger.Log
+	l := logrus.New()
+	l.SetOutput(io.Discard)
+	logger.Log = &logger.Loggers{Logrus: l}
+	defer func() { logger.Log = saved; gocbcore.SetLogger(nil) }()
+	d, err := dcp.NewDcp(c, func(*models.ListenerContext) {})
+	if err == nil {
+		d.Close()
+		return "started"
+	}
+	view := func(f func() any) (out string) {
+		defer func() {
+			if r := recover(); r != nil {
+				out = "panic"
+			}
+		}()
+		return cfgDump(f())
+	}
+	return cfgDump(c) + " ;meta " + view(func() any { return c.GetCouchbaseMetadata() }) +
+		" ;member " + view(func() any { return c.GetCouchbaseMembership() }) +
+		" ;elector " + view(func() any { return c.GetKubernetesLeaderElector() })
 }
 
 func cfgExecDerived(kind string, w []string) (res string) {
@@ -692,6 +735,64 @@ func (c *Ctx) cfgDefaultsCases() {
 			tags = append(tags, "defaults.env")
 		}
 		cfgOne(c, mk(env, r.Intn(2), words), true, tags...)
+	}
+}
+
+// start-up through the public constructor (dead port, 120 ms connection time-out): random subsets of the options that do not
+// reach the file system, with the three override maps filled from their documented keys
+func (c *Ctx) cfgStartCases() {
+	r := c.R
+	var ls []cfgLeaf
+	cfgLeaves(reflect.ValueOf(&config.Dcp{}).Elem(), "", &ls)
+	skip := map[string]bool{"hosts": true, "connectionTimeout": true, "dcp.connectionTimeout": true, "secureConnection": true, "rootCAPath": true,
+		"logging.level": true, "metadata.config": true, "dcp.group.membership.config": true, "leaderElection.config": true}
+	mapKeys := map[string][]string{
+		"metadata.config": {"hosts", "username", "password", "bucket", "scope", "collection", "maxQueueSize", "connectionBufferSize"},
+		"dcp.group.membership.config": {"expirySeconds", "heartbeatInterval", "heartbeatToleranceDuration", "monitorInterval", "timeout"},
+		"leaderElection.config":       {"leaseLockName", "leaseLockNamespace", "leaseDuration", "renewDeadline", "retryPeriod"},
+	}
+	vals := []string{"x", "secret", "10.0.0.7:8091", "5", "20s", "1mb", "meta", ""}
+	// the metadata connection time-out defaults to one minute and the larger of the two is used: always overridden here
+	for k := 0; k < c.N(24, 120); k++ {
+		words := []string{"hosts=l:" + hx("couchbase://127.0.0.1:1") + ",", "connectionTimeout=d:120000000", "dcp.connectionTimeout=d:120000000"}
+		dens := []int{10, 40, 80}[r.Intn(3)]
+		for _, l := range ls {
+			// size options (`any`) with unparsable strings make client.Connect panic before anything else happens: not start-up's subject
+			if skip[l.path] || l.v.Kind() == reflect.Interface || !r.Chance(dens) {
+				continue
+			}
+			words = append(words, l.path+"="+c.cfgRandToken(l.path, l.v))
+		}
+		tags := []string{"start"}
+		for mp, keys := range mapKeys {
+			if mp != "metadata.config" && !r.Chance(70) {
+				continue
+			}
+			m := map[string]string{}
+			for _, key := range keys {
+				if r.Chance(45) {
+					switch key {
+					case "maxQueueSize", "expirySeconds":
+						m[key] = r.Pick("5", "2048", "100000")
+					case "connectionBufferSize":
+						m[key] = r.Pick("1mb", "5", "20971520", "2 kb")
+					case "heartbeatInterval", "heartbeatToleranceDuration", "monitorInterval", "timeout", "leaseDuration", "renewDeadline", "retryPeriod":
+						m[key] = r.Pick("20s", "5s", "1m", "750ms")
+					default:
+						m[key] = vals[r.Intn(len(vals))]
+					}
+				}
+			}
+			if _, ok := m["password"]; ok {
+				tags = append(tags, "start.meta-password")
+			}
+			if mp == "metadata.config" {
+				m["connectionTimeout"] = "120ms"
+			}
+			words = append(words, mp+"="+cfgMapToken(m))
+		}
+		sort.Strings(words)
+		cfgOne(c, "cfg-start "+strings.Join(words, " "), true, tags...)
 	}
 }
 
@@ -1142,6 +1243,7 @@ func runC17(c *Ctx) {
 		return
 	}
 	c.cfgDefaultsCases()
+	c.cfgStartCases()
 	c.cfgDerivedCases()
 	c.cfgSizeCases()
 	c.cfgEnvSubstCases()
